@@ -380,6 +380,10 @@ def gen_values(r, regime):
                 continue
             seenb.add(sel)
             vals.append(("byte", [("method", '"' + sig + '"'), ("byte", "0x" + sel.hex())]))
+            if sig.encode() not in seenb and r.random() < 0.7:
+                # the same literal text under another opcode denotes other bytes (`byte "f()void"` is the text itself)
+                seenb.add(sig.encode())
+                vals.append(("byte", [("byte", '"' + sig + '"'), ("byte", "0x" + sig.encode().hex())]))
             continue
         if c < 0.26:
             b = bytes(r.randrange(256) for _ in range(32))
@@ -485,7 +489,7 @@ def const_pool(r, version, mode, big):
     if version >= 4 and mode == "app":
         sig = r.choice(SIGS)
         sel = sha512_256(sig.encode())[:4]
-        byts += [lambda: pt.MethodSignature(sig), lambda: pt.Bytes(sel)]
+        byts += [lambda: pt.MethodSignature(sig), lambda: pt.Bytes(sel), lambda: pt.Bytes(sig)]
     if r.random() < 0.4:
         byts += [lambda: pt.Tmpl.Bytes("TMPL_KEY"), lambda: pt.Tmpl.Addr("TMPL_KEY")]
     if big and r.random() < 0.5:
